@@ -211,6 +211,20 @@ macro_rules! variant {
                 fn display(&self) -> String {
                     format!("{}", self.0)
                 }
+                fn display_flags(&self) -> Vec<(&'static str, String)> {
+                    let h = &self.0;
+                    vec![
+                        ("{:>160}", format!("{:>160}", h)),
+                        ("{:<3}", format!("{:<3}", h)),
+                        ("{:*^150}", format!("{:*^150}", h)),
+                        ("{:0200}", format!("{:0200}", h)),
+                        ("{:.10}", format!("{:.10}", h)),
+                        ("{:.0}", format!("{:.0}", h)),
+                        ("{:#}", format!("{:#}", h)),
+                        ("{:+}", format!("{:+}", h)),
+                        ("{:>1$}", format!("{:>1$}", h, 99)),
+                    ]
+                }
                 fn to_string_(&self) -> String {
                     self.0.to_string()
                 }
@@ -856,6 +870,16 @@ impl GlobalApi for Api {
         return Some(tlsh::hash_file(_p).map(|h| Box::new(v_normal::HObj(h)) as H).map_err(stream_err));
         #[allow(unreachable_code)]
         None
+    }
+    fn io_error_with_generator_payload(&self, kind: std::io::ErrorKind, which: u8) -> std::io::Error {
+        #[cfg(feature = "t-std")]
+        {
+            use GeneratorError as E;
+            let e = [E::TooSmallInput, E::TooLargeInput, E::BucketsAreHalfEmpty, E::BucketsAreThreeQuarterEmpty][which as usize % 4];
+            return std::io::Error::new(kind, e);
+        }
+        #[allow(unreachable_code)]
+        std::io::Error::new(kind, format!("verif-hard-error-payload-{}", which))
     }
     fn gerr_category(&self, e: GErr) -> GCat {
         let g = match e {
